@@ -11,7 +11,10 @@ logger = logging.getLogger(__name__)
 class AsyncoreConnectionDispatcher(YowConnectionDispatcher, asyncore.dispatcher_with_send):
     def __init__(self, connectionCallbacks):
         super(AsyncoreConnectionDispatcher, self).__init__(connectionCallbacks)
-        asyncore.dispatcher_with_send.__init__(self)
+        # a private socket map: the loop that serves this connection must not also serve the sockets of other
+        # dispatchers (an earlier connection's loop that has not returned yet, or another stack in this process)
+        self._socket_map = {}
+        asyncore.dispatcher_with_send.__init__(self, map=self._socket_map)
         self._connected = False
         self._send_lock = threading.Lock()
 
@@ -33,7 +36,7 @@ class AsyncoreConnectionDispatcher(YowConnectionDispatcher, asyncore.dispatcher_
         self.connectionCallbacks.onConnecting()
         self.create_socket(socket.AF_INET, socket.SOCK_STREAM)
         asyncore.dispatcher_with_send.connect(self, host)
-        asyncore.loop(timeout=1)
+        asyncore.loop(timeout=1, map=self._socket_map)
 
     def handle_connect(self):
         logger.debug("handle_connect")
